@@ -501,8 +501,10 @@ class Verdict:
         ev['coverage'].update(self.notes)
         if self.known_hits:
             ev['coverage']['known_findings_hit'] = self.known_hits
-        os.makedirs(os.path.join(ROOT, 'evidence'), exist_ok=True)
-        with open(os.path.join(ROOT, 'evidence', self.pid + '.json'), 'w') as f:
+        # checks of behaviour beyond the listed properties (ids X..) keep their evidence out of evidence/
+        evdir = os.path.join(ROOT, 'evidence') if self.pid.startswith('C') else os.path.join(OUT, 'extras')
+        os.makedirs(evdir, exist_ok=True)
+        with open(os.path.join(evdir, self.pid + '.json'), 'w') as f:
             json.dump(ev, f, indent=1)
         for sig, n in self.known_hits.items():
             print('KNOWN-FINDING: property=%s %s %s (%d cases)' % (self.pid, sig, self.known[sig], n))
